@@ -15,6 +15,7 @@ EXTENDS VUtil
 
 Scalar(name, w) == [name |-> name, kind |-> "scalar", width |-> w]
 Blob(name, w)   == [name |-> name, kind |-> "blob", width |-> w]
+VBlob(name)     == [name |-> name, kind |-> "vblob", width |-> 1]
 
 Header == << Scalar("ti.main_width", 1), Scalar("ti.aux_width", 1), Scalar("ti.rands", 1), Scalar("ti.len_log2", 1),
              Blob("ti.meta", 2), Blob("modulus", 1),
@@ -23,27 +24,30 @@ Header == << Scalar("ti.main_width", 1), Scalar("ti.aux_width", 1), Scalar("ti.r
              Scalar("unique_queries", 1), Blob("commitments", 2) >>
 QueryGroup(p) == << Blob(p \o ".values", 4), Blob(p \o ".paths", 4) >>
 Ood == << Blob("ood.trace", 2), Blob("ood.lagrange", 2), Blob("ood.evaluations", 2) >>
-Tail_ == << Blob("fri.remainder", 2), Scalar("fri.partitions", 1), Scalar("pow_nonce", 8), Scalar("gkr.tag", 1) >>
+\* the optional GKR proof closes the proof: a tag byte, then (if present) a byte vector with a vint64 length prefix (one
+\* byte, 2 * length + 1, for the lengths that occur)
+Tail_(gkr) == << Blob("fri.remainder", 2), Scalar("fri.partitions", 1), Scalar("pow_nonce", 8), Scalar("gkr.tag", 1) >>
+              \o (IF gkr THEN << VBlob("gkr.body") >> ELSE << >>)
 
-\* the grammar for a proof with `segments` trace segments and `layers` FRI layers
-Grammar(segments, layers) ==
+\* the grammar for a proof with `segments` trace segments and `layers` FRI layers, with or without a GKR proof
+Grammar(segments, layers, gkr) ==
     Header
     \o FoldLeft(LAMBDA acc, i : acc \o QueryGroup("tq" \o ToString(i)), <<>>, [i \in 1..segments |-> i])
     \o QueryGroup("cq") \o Ood
     \o << Scalar("fri.num_layers", 1) >>
     \o FoldLeft(LAMBDA acc, i : acc \o QueryGroup("fl" \o ToString(i)), <<>>, [i \in 1..layers |-> i])
-    \o Tail_
+    \o Tail_(gkr)
 
 MaxOf(w) == CASE w = 1 -> "ff" [] w = 2 -> "ffff" [] w = 4 -> "ffffffff" [] w = 8 -> "ffffffffffffffff"
 ScalarMutations == {"zero", "one", "max", "max-1", "plus1", "minus1", "flip-high-bit"}
-\* the optional trailing component (GKR proof): absent -> present with a well-formed 3-byte body
-OptionMutations == {"set-some"}
+\* the optional trailing component (GKR proof): absent -> present with a well-formed 3-byte body; present -> absent
+OptionMutations == {"set-some", "set-none"}
 BlobMutations   == {"shorten", "lengthen", "prefix+1", "prefix-1", "prefix-max", "empty", "flip-first-bit", "flip-last-bit",
                     "zero-first-chunk", "swap-chunks", "dup-last-chunk", "drop-first-chunk"}
 
 MutationsOf(f) == IF f.kind = "scalar" THEN {[field |-> f.name, m |-> x] : x \in ScalarMutations \cup (IF f.name = "gkr.tag" THEN OptionMutations ELSE {})}
                   ELSE {[field |-> f.name, m |-> x] : x \in BlobMutations}
-AllMutations(segments, layers) == UNION {MutationsOf(Grammar(segments, layers)[i]) : i \in DOMAIN Grammar(segments, layers)}
+AllMutations(segments, layers, gkr) == UNION {MutationsOf(Grammar(segments, layers, gkr)[i]) : i \in DOMAIN Grammar(segments, layers, gkr)}
 
 \* a mutation may leave the decoded content unchanged only in these cases (C03's exemptions and no-ops)
 MayKeepContent(mu) == mu.field = "fri.partitions"
